@@ -510,10 +510,14 @@ VALUE_SPEC_PLACEHOLDER@*/
             room(old(self).position, length as int),
             old(vec)@.len() + (length as int) <= usize::MAX,
         ensures
-            // the offset table reader consumes whole 32-bit words: 4 * (length / 4) bytes
-            r is Ok ==> Self::advanced(*old(self), *final(self), 4 * ((length >> 2u32) as int)),
+            // taken from the property, not from the code: the offset table is an item like any other, so on success exactly the
+            // declared number of bytes is consumed and accounted for (whole 32-bit words, then the 0-3 bytes that remain)
+            r is Ok ==> Self::advanced(*old(self), *final(self), length as int),
 @proof after /^\{/
-        proof { assert((length >> 2u32) as int * 4 <= length as int) by { assert((length >> 2u32) <= length / 4) by (bit_vector); } }
+        proof {
+            assert((length >> 2u32) as int * 4 + (length & 3u32) as int == length as int) by { assert((length >> 2u32) * 4 + (length & 3u32) == length) by (bit_vector); }
+            assert((length & 3u32) <= 3) by (bit_vector);
+        }
 @*/
 
 /*@fn
